@@ -245,23 +245,29 @@ Proof.
   intros H want. cbn [andb]. exact H.
 Qed.
 
+Lemma tok_part_some uf zf base0 semi want s re rest :
+  tok_part_gen uf zf base0 semi want s = Some (re, rest) -> at_term semi rest = true /\ good s rest.
+Proof.
+  unfold tok_part_gen.
+  pose proof (strto_int_good base0 s) as G1. pose proof (strtod_good s) as G2.
+  destruct (strto_int base0 s) as [[neg mag] r1]. destruct (strtod_model s) as [[b rd] er]. cbn [fst snd] in *.
+  destruct ((- two63 <=? (if neg then - mag else mag)) && ((if neg then - mag else mag) <? two63));
+  destruct (zf && want && ((if neg then - mag else mag) =? 0));
+  destruct (mag <? two64);
+  destruct (negb er || uf && negb (dbl_is_inf b));
+  destruct (at_term semi r1) eqn:A1; destruct (at_term semi rd) eqn:A2;
+  cbn [negb andb orb]; intros H; try discriminate; injection H as _ <-; split; assumption.
+Qed.
+
 Lemma tok_not_number_want uf zf base0 x : no59 x ->
   tok_to_num_gen uf zf base0 false false x = NotNum -> forall wr wi, tok_to_num_gen uf zf base0 wr wi x = NotNum.
 Proof.
   intros H59 H wr wi. unfold tok_to_num_gen in *.
   destruct (tok_part_gen uf zf base0 true false x) as [[re rest]|] eqn:E.
-  - (* a real part was read: then it ended the token (no ';' in x) and the result is a number *)
-    exfalso. unfold tok_part_gen in E.
-    pose proof (strto_int_good base0 x) as G1. pose proof (strtod_good x) as G2.
-    destruct (strto_int base0 x) as [[neg mag] r1]. destruct (strtod_model x) as [[b rd] er]. cbn [fst snd] in *.
-    rewrite (at_term_suffix true x r1 H59 G1), (at_term_suffix true x rd H59 G2) in E.
-    assert (R : rest = []).
-    { repeat match type of E with
-             | (if ?c then _ else _) = _ => destruct c eqn:?
-             end; try discriminate; injection E as _ <-;
-      repeat match goal with H : _ && _ = true |- _ => apply andb_true_iff in H; destruct H end;
-      match goal with H : at_term false ?r = true |- ?r = [] => destruct r; [reflexivity | discriminate] end. }
-    subst rest. discriminate.
+  - (* a real part was read: it ended the token (no ';' in x), so the result is a number *)
+    exfalso. destruct (tok_part_some _ _ _ _ _ _ _ _ E) as [A G].
+    rewrite (at_term_suffix true x rest H59 G) in A.
+    destruct rest; [discriminate | discriminate].
   - rewrite (tok_part_none_want _ _ _ _ _ E). reflexivity.
 Qed.
 
